@@ -35,6 +35,23 @@ class _Continue(Exception):
     pass
 
 
+@dataclass(frozen=True)
+class _Lam:
+    node: ast.Lambda
+    env: dict
+
+    def __hash__(self):
+        return id(self.node)
+
+
+@dataclass(frozen=True)
+class _Op:
+    op: ast.operator
+
+
+OPERATOR_FUNCS = {"operator.or_": ast.BitOr(), "operator.and_": ast.BitAnd(), "operator.xor": ast.BitXor(), "operator.add": ast.Add(), "operator.sub": ast.Sub(), "operator.ior": ast.BitOr()}
+
+
 class MiniEval:
     def __init__(self, P: Program, module: Module, cls: ClassInfo | None, attrs: dict[str, object]):
         """attrs: values for dotted self-attributes, e.g. {'self._event_filter': frozenset({ClassVal('X')})}."""
@@ -154,6 +171,17 @@ class MiniEval:
             return tuple(a) + tuple(b)
         raise AnalysisError(f"minieval: unsupported operands for {type(op).__name__}")
 
+    def apply(self, f, args):
+        """Call of a function value: a lambda closure, or one of operator's binary functions."""
+        if isinstance(f, _Lam):
+            names = [a.arg for a in f.node.args.args]
+            if len(names) != len(args) or f.node.args.vararg or f.node.args.kwonlyargs:
+                raise AnalysisError("minieval: lambda called with the wrong number of arguments")
+            return self.expr(f.node.body, {**f.env, **dict(zip(names, args))})
+        if isinstance(f, _Op) and len(args) == 2:
+            return self.binop(f.op, args[0], args[1])
+        raise AnalysisError(f"minieval: cannot call {f!r}")
+
     def issub(self, a, b) -> bool:
         if not isinstance(a, ClassVal):
             raise AnalysisError("minieval: issubclass() of a non-class")
@@ -171,6 +199,8 @@ class MiniEval:
                 return {"True": True, "False": False, "None": None}[e.id]
             if e.id in P.classes and (e.id in self.module.classes or e.id in self.module.imports):
                 return ClassVal(e.id)
+            if self.module.imports.get(e.id) in OPERATOR_FUNCS:
+                return _Op(OPERATOR_FUNCS[self.module.imports[e.id]])
             v = P.fold(e, self.module, self.cls)
             if v is not None:
                 return v
@@ -189,6 +219,8 @@ class MiniEval:
                     owner, ex = got
                     oc = P.classes[owner]
                     return MiniEval(P, oc.module, oc, self.attrs).expr(ex, {})
+            if d and d.split(".")[0] in self.module.imports and ".".join([self.module.imports[d.split(".")[0]]] + d.split(".")[1:]) in OPERATOR_FUNCS:
+                return _Op(OPERATOR_FUNCS[".".join([self.module.imports[d.split(".")[0]]] + d.split(".")[1:])])
             v = P.fold(e, self.module, self.cls)
             if v is not None:
                 return v
@@ -267,9 +299,68 @@ class MiniEval:
 
             rec(e.generators, dict(env))
             return frozenset(out) if isinstance(e, ast.SetComp) else tuple(out)
+        if isinstance(e, ast.NamedExpr):
+            v = self.expr(e.value, env)
+            self.assign(e.target, v, env)
+            return v
+        if isinstance(e, ast.Lambda):
+            return _Lam(e, dict(env))
         if isinstance(e, ast.Call):
             d = dotted(e.func) or ""
+            if d.split(".")[0] in self.module.imports and d.split(".")[0] not in env:
+                d = ".".join([self.module.imports[d.split(".")[0]]] + d.split(".")[1:])  # through the import table: or_ -> operator.or_
             args = [self.expr(a, env) for a in e.args]
+            if d in ("functools.reduce", "reduce") and len(args) in (2, 3) and not e.keywords:
+                items = list(self.iterate(args[1]))
+                if len(args) == 3:
+                    acc = args[2]
+                elif items:
+                    acc, items = items[0], items[1:]
+                else:
+                    raise AnalysisError("minieval: reduce() of an empty sequence without an initial value")
+                for x in items:
+                    acc = self.apply(args[0], [acc, x])
+                return acc
+            # pure helpers of the same class / module are evaluated in place
+            helper = None
+            if isinstance(e.func, ast.Attribute) and isinstance(e.func.value, ast.Name) and e.func.value.id == "self" and self.cls is not None and env.get("self") is None:
+                hfi = P.find_method(self.cls.name, e.func.attr)
+                if hfi is not None and not any(isinstance(x, ast.Name) and x.id in ("property", "staticmethod", "classmethod") for x in hfi.node.decorator_list):
+                    helper = (hfi, 1)
+            elif isinstance(e.func, ast.Name) and e.func.id not in env and e.func.id in self.module.functions:
+                helper = (self.module.functions[e.func.id], 0)
+            if helper is not None:
+                hfi, skip = helper
+                a_ = hfi.node.args
+                if a_.vararg or a_.kwarg:
+                    raise AnalysisError(f"minieval: helper {hfi.qualname} takes *args / **kwargs")
+                names = [x.arg for x in a_.posonlyargs + a_.args][skip:]
+                bound = dict(zip(names, args))
+                if skip:
+                    bound[(a_.posonlyargs + a_.args)[0].arg] = None
+                for k in e.keywords:
+                    if k.arg is None:
+                        raise AnalysisError("minieval: ** in a helper call")
+                    bound[k.arg] = self.expr(k.value, env)
+                allp = a_.posonlyargs + a_.args
+                for p_, dflt in zip(allp[len(allp) - len(a_.defaults) :], a_.defaults):
+                    bound.setdefault(p_.arg, self.expr(dflt, {}))
+                for p_, dflt in zip(a_.kwonlyargs, a_.kw_defaults):
+                    if dflt is not None:
+                        bound.setdefault(p_.arg, self.expr(dflt, {}))
+                missing = [n for n in names + [x.arg for x in a_.kwonlyargs] if n not in bound]
+                if missing or len(args) > len(names):
+                    raise AnalysisError(f"minieval: call of {hfi.qualname} does not bind {missing or 'its arguments'}")
+                self.depth = getattr(self, "depth", 0) + 1
+                if self.depth > 8:
+                    raise AnalysisError("minieval: helper recursion too deep")
+                try:
+                    sub = MiniEval(P, hfi.module, hfi.cls if skip else None, self.attrs) if (hfi.module is not self.module or (hfi.cls if skip else None) is not self.cls) else self
+                    return sub.call_function(hfi.node, bound)
+                finally:
+                    self.depth -= 1
+            if isinstance(e.func, ast.Name) and isinstance(env.get(e.func.id), _Lam):
+                return self.apply(env[e.func.id], args)
             if d == "issubclass" and len(args) == 2:
                 return self.issub(args[0], args[1])
             if d == "any" and len(args) == 1:
